@@ -11,7 +11,7 @@
 (***************************************************************************)
 EXTENDS CrystalObject, TLC
 
-CONSTANTS Design, Depth, MaxObjs, QSet, Emit, Loaded
+CONSTANTS Design, Depth, MaxObjs, QSet, Emit, Loaded, WithNormalize
 
 S0 == [choice |-> "H", n |-> 12, gram |-> << <<18, -9, 0>>, <<-9, 18, 0>>, <<0, 0, 45>> >>, pts |-> << <<1, 5, 7>> >>]
 
@@ -31,6 +31,10 @@ Switch(i, ch) == /\ st' = SpecSwitch(st, i, ch)
                  /\ memo' = IF Design = "spec" /\ st'[i] # st[i] THEN InvalidateMemo(memo, i) ELSE memo
                  /\ obs' = FALSE
                  /\ hist' = Append(hist, ToString(i) \o ":s:" \o ch)
+Normalize(i) == /\ st' = SpecNormalize(st, i)
+                /\ memo' = IF Design = "spec" /\ st'[i] # st[i] THEN InvalidateMemo(memo, i) ELSE memo
+                /\ obs' = FALSE
+                /\ hist' = Append(hist, ToString(i) \o ":n:0")
 Copy(i, j) == /\ j \notin Objs /\ j = Cardinality(Objs) + 1 /\ j <= MaxObjs
               /\ st' = SpecCopy(st, i, j)
               /\ memo' = [k \in Objs \cup {j} |-> IF k = j THEN memo[i] ELSE memo[k]]
@@ -40,6 +44,7 @@ Next == /\ Len(hist) < Depth
         /\ \/ \E i \in Objs : \E q \in QSet : Query(i, q)
            \/ \E i \in Objs : \E ch \in {"H", "R"} : Switch(i, ch)
            \/ \E i \in Objs : Copy(i, Cardinality(Objs) + 1)
+           \/ WithNormalize /\ \E i \in Objs : Normalize(i)
 Spec == Init /\ [][Next]_vars
 
 RECURSIVE Join(_)
